@@ -1,9 +1,389 @@
+/-
+C19 — "Channel combinators deliver every item exactly once under all schedules".
+
+Models (layer K, one labelled transition system per emitted goroutine skeleton, environment included):
+K/FmapChan, K/Dup, K/JoinWG (chan-of-chan and slice-of-chan forms), K/JoinSelect (select form),
+K/Pipeline (= stage-1 FmapChan goroutine ∥ JoinWG).  Every theorem quantifies over ALL reachable
+states, i.e. over every interleaving of producers, consumers and internal goroutines, and is UNBOUNDED
+in the number of inputs, the item lists, the buffer capacities and the order in which producers close.
+
+Per system:
+  *_delivery             input i = received|ᵢ ++ held by a goroutine ++ buffered ++ not yet sent
+                         (nothing lost, nothing duplicated, per-input order kept at every moment)
+  *_exactly_once         in a final state (every consumer has observed the close) what was received
+                         from input i is exactly `items i`, in order (whole order for fmap and dup)
+  *_no_send_on_closed    the panic state (send on closed channel, double close, negative WaitGroup) is
+                         unreachable, and no goroutine is ever parked at a send on a closed output
+  *_close_after_drained  an output is closed only when every input is closed and drained and nothing is
+                         held; closed at most once (second close = panic state, unreachable); closed in
+                         every final state
+  *_progress             given consumers that keep receiving: in every reachable non-final state some
+                         transition is enabled (no deadlock)
+  *_terminates_clean     in a final state every internal goroutine is at its end (nothing left running,
+                         WaitGroup counter 0)
+
+Ties: T4 `skeleton_facts`; T5 trace validation + race stress (vlib/props/c19.py).  Partial: data-race
+freedom at memory level and the faithfulness of the channel semantics of K/Lts to the Go runtime are
+observed (race detector runs), not proved.
+-/
 import GoderiveModel.K.Skeleton
-import GoderiveModel.K.FmapChan
+import GoderiveModel.Lemmas.ConcFmap
+import GoderiveModel.Lemmas.ConcDup
+import GoderiveModel.Lemmas.ConcJoinWG
+import GoderiveModel.Lemmas.ConcJoinSelect
+import GoderiveModel.Lemmas.ConcPipeline
 
 namespace Goderive.C19
 open Goderive.K
 
+/-- T4: the functions goderive emits now have the skeletons the transition systems were written for. -/
 theorem skeleton_facts : Generated.skeletons = expectedSkeletons := skeleton_matches
+
+/-! ## Fmap over a channel -/
+
+theorem fmap_delivery (c : FmapChan.Cfg) (s : FmapChan.State) (hr : (FmapChan.lts c).Reachable s) :
+    c.items.map c.f = s.got ++ s.out.buf ++ FmapChan.held s.pc ++ s.inp.buf.map c.f ++ s.pend.map c.f :=
+  (FmapChan.inv_reachable c s hr).deliv
+
+theorem fmap_exactly_once (c : FmapChan.Cfg) (s : FmapChan.State) (hr : (FmapChan.lts c).Reachable s) :
+    (∃ rest, c.items.map c.f = s.got ++ rest) ∧ (FmapChan.final s → s.got = c.items.map c.f) := by
+  have hi := FmapChan.inv_reachable c s hr
+  refine ⟨⟨_, by rw [hi.deliv]; simp only [List.append_assoc]; rfl⟩, ?_⟩
+  intro hf
+  obtain ⟨hoc, hob⟩ := hi.seenC hf
+  have hpc := hi.outClosed.mp hoc
+  obtain ⟨hic, hib⟩ := hi.late (Or.inr hpc)
+  have hd := hi.deliv
+  rw [hob, hpc, hib, hi.closedPend hic] at hd
+  simpa [FmapChan.held] using hd.symm
+
+theorem fmap_no_send_on_closed (c : FmapChan.Cfg) (s : FmapChan.State) (hr : (FmapChan.lts c).Reachable s) :
+    s.panicked = false ∧ (∀ b, s.pc = .send b → s.out.closed = false) := by
+  have hi := FmapChan.inv_reachable c s hr
+  refine ⟨hi.np, ?_⟩
+  intro b hb
+  cases h : s.out.closed
+  · rfl
+  · have := hi.outClosed.mp h; rw [hb] at this; cases this
+
+theorem fmap_close_after_drained (c : FmapChan.Cfg) (s : FmapChan.State) (hr : (FmapChan.lts c).Reachable s) :
+    (s.out.closed = true → s.pc = .done ∧ s.inp.closed = true ∧ s.inp.buf = [] ∧ s.pend = []) ∧
+    (FmapChan.final s → s.out.closed = true) := by
+  have hi := FmapChan.inv_reachable c s hr
+  refine ⟨?_, fun hf => (hi.seenC hf).1⟩
+  intro h
+  have hpc := hi.outClosed.mp h
+  obtain ⟨hic, hib⟩ := hi.late (Or.inr hpc)
+  exact ⟨hpc, hic, hib, hi.closedPend hic⟩
+
+theorem fmap_progress (c : FmapChan.Cfg) (s : FmapChan.State) (hr : (FmapChan.lts c).Reachable s)
+    (hnf : ¬ FmapChan.final s) : (FmapChan.lts c).Enabled s :=
+  FmapChan.progress c s (FmapChan.inv_reachable c s hr) (by simpa [FmapChan.final] using hnf)
+
+theorem fmap_terminates_clean (c : FmapChan.Cfg) (s : FmapChan.State) (hr : (FmapChan.lts c).Reachable s)
+    (hf : FmapChan.final s) : s.pc = .done := by
+  have hi := FmapChan.inv_reachable c s hr
+  exact hi.outClosed.mp (hi.seenC hf).1
+
+/-- a complete run: two items through unbuffered channels, f = (· + 1) -/
+example : ∃ s, (FmapChan.lts { items := [5, 7], cap := 0, f := (· + 1) }).run
+      (FmapChan.init { items := [5, 7], cap := 0, f := (· + 1) })
+      [.pSend, .cRecv, .pSend, .pClose, .cRecv, .fRecv, .fClose, .cRecv] = some s ∧
+    s.got = [6, 8] ∧ s.seen = true := by
+  refine ⟨_, rfl, ?_, ?_⟩ <;> decide
+
+/-- … and a buffered one, mid-flight: one item received, one buffered in `out`, one held -/
+example : ∃ s, (FmapChan.lts { items := [1, 2, 3], cap := 1, f := (· * 2) }).run
+      (FmapChan.init { items := [1, 2, 3], cap := 1, f := (· * 2) })
+      [.pSend, .fRecv, .fSend, .cRecv, .pSend, .fRecv, .fSend, .pSend, .fRecv] = some s ∧
+    s.got = [2] ∧ s.out.buf = [4] ∧ s.pc = .send 6 := by
+  refine ⟨_, rfl, ?_, ?_, ?_⟩ <;> decide
+
+/-! ## Dup -/
+
+theorem dup_delivery (c : Dup.Cfg) (s : Dup.State) (hr : (Dup.lts c).Reachable s) :
+    c.items = s.got1 ++ s.o1.buf ++ Dup.held1 s.pc ++ s.inp.buf ++ s.pend ∧
+    c.items = s.got2 ++ s.o2.buf ++ Dup.held2 s.pc ++ s.inp.buf ++ s.pend :=
+  ⟨(Dup.inv_reachable c s hr).d1, (Dup.inv_reachable c s hr).d2⟩
+
+theorem dup_exactly_once (c : Dup.Cfg) (s : Dup.State) (hr : (Dup.lts c).Reachable s) :
+    (∃ r1 r2, c.items = s.got1 ++ r1 ∧ c.items = s.got2 ++ r2) ∧
+    (Dup.final s → s.got1 = c.items ∧ s.got2 = c.items) := by
+  have hi := Dup.inv_reachable c s hr
+  refine ⟨⟨_, _, by rw [hi.d1]; simp only [List.append_assoc]; rfl, by rw [hi.d2]; simp only [List.append_assoc]; rfl⟩, ?_⟩
+  intro hf
+  obtain ⟨hc1, hb1⟩ := hi.sc1 hf.1
+  obtain ⟨hc2, hb2⟩ := hi.sc2 hf.2
+  have hpc := hi.oc2.mp hc2
+  obtain ⟨hic, hib⟩ := hi.late (Or.inr (Or.inr hpc))
+  have h1 := hi.d1
+  have h2 := hi.d2
+  rw [hb1, hpc, hib, hi.closedPend hic] at h1
+  rw [hb2, hpc, hib, hi.closedPend hic] at h2
+  exact ⟨by simpa [Dup.held1] using h1.symm, by simpa [Dup.held2] using h2.symm⟩
+
+theorem dup_no_send_on_closed (c : Dup.Cfg) (s : Dup.State) (hr : (Dup.lts c).Reachable s) :
+    s.panicked = false ∧ (∀ v, s.pc = .send1 v → s.o1.closed = false) ∧
+    (∀ v, s.pc = .send2 v → s.o2.closed = false) := by
+  have hi := Dup.inv_reachable c s hr
+  refine ⟨hi.np, ?_, ?_⟩
+  · intro v hv
+    cases h : s.o1.closed
+    · rfl
+    · rcases hi.oc1.mp h with h' | h' <;> rw [hv] at h' <;> cases h'
+  · intro v hv
+    cases h : s.o2.closed
+    · rfl
+    · have := hi.oc2.mp h; rw [hv] at this; cases this
+
+theorem dup_close_after_drained (c : Dup.Cfg) (s : Dup.State) (hr : (Dup.lts c).Reachable s) :
+    ((s.o1.closed = true ∨ s.o2.closed = true) → s.inp.closed = true ∧ s.inp.buf = [] ∧ s.pend = [] ∧
+        Dup.held2 s.pc = []) ∧
+    (Dup.final s → s.o1.closed = true ∧ s.o2.closed = true) := by
+  have hi := Dup.inv_reachable c s hr
+  refine ⟨?_, fun hf => ⟨(hi.sc1 hf.1).1, (hi.sc2 hf.2).1⟩⟩
+  intro h
+  have hpc : s.pc = .close2 ∨ s.pc = .done := by
+    rcases h with h | h
+    · exact hi.oc1.mp h
+    · exact Or.inr (hi.oc2.mp h)
+  obtain ⟨hic, hib⟩ := hi.late (Or.inr hpc)
+  refine ⟨hic, hib, hi.closedPend hic, ?_⟩
+  rcases hpc with h' | h' <;> rw [h'] <;> rfl
+
+theorem dup_progress (c : Dup.Cfg) (s : Dup.State) (hr : (Dup.lts c).Reachable s)
+    (hnf : ¬ Dup.final s) : (Dup.lts c).Enabled s :=
+  Dup.progress c s (Dup.inv_reachable c s hr) hnf
+
+theorem dup_terminates_clean (c : Dup.Cfg) (s : Dup.State) (hr : (Dup.lts c).Reachable s)
+    (hf : Dup.final s) : s.pc = .done := by
+  have hi := Dup.inv_reachable c s hr
+  exact hi.oc2.mp (hi.sc2 hf.2).1
+
+example : ∃ s, (Dup.lts { items := [4, 9], cap := 1 }).run (Dup.init { items := [4, 9], cap := 1 })
+      [.pSend, .dRecv, .dSend1, .pSend, .dSend2, .c2Recv, .dRecv, .c1Recv, .dSend1, .dSend2, .pClose,
+       .dRecv, .dClose1, .c1Recv, .c1Recv, .dClose2, .c2Recv, .c2Recv] = some s ∧
+    s.got1 = [4, 9] ∧ s.got2 = [4, 9] ∧ (s.seen1 = true ∧ s.seen2 = true) := by
+  refine ⟨_, rfl, ?_, ?_, ?_⟩ <;> decide
+
+/-! ## Join with a WaitGroup: `deriveJoin(<-chan <-chan T)` and `deriveJoin([]<-chan T)` -/
+
+theorem joinwg_delivery (c : JoinWG.Cfg) (s : JoinWG.State) (hr : (JoinWG.lts c).Reachable s) :
+    ∀ i, i < c.n →
+      c.items i = gotOf s.got i ++ JoinWG.held (s.st i) ++ (s.ch i).buf ++ s.pend i :=
+  (JoinWG.inv_reachable c s hr).1.deliv
+
+theorem joinwg_exactly_once (c : JoinWG.Cfg) (s : JoinWG.State) (hr : (JoinWG.lts c).Reachable s) :
+    (∀ i, i < c.n → ∃ rest, c.items i = gotOf s.got i ++ rest) ∧
+    (∀ p, p ∈ s.got → p.1 < c.n) ∧
+    (JoinWG.final s → ∀ i, i < c.n → gotOf s.got i = c.items i) := by
+  have hi := (JoinWG.inv_reachable c s hr).1
+  refine ⟨?_, JoinWG.tags_reachable c s hr, ?_⟩
+  · intro i hin
+    exact ⟨_, by rw [hi.deliv i hin]; simp only [List.append_assoc]; rfl⟩
+  · intro hf i hin
+    have hpc := hi.outCl.mp (hi.seenC hf)
+    have hfin := hi.allFin (Or.inr hpc) i hin
+    obtain ⟨hcl, hb⟩ := hi.drained i (Or.inr hfin)
+    have hd := hi.deliv i hin
+    rw [hfin, hb, hi.closedPend i hcl] at hd
+    simpa [JoinWG.held] using hd.symm
+
+/-- the WaitGroup counter always equals the number of live forwarders (+1 between `Add` and `go`):
+this is what makes `Wait` a sound barrier, and it rests on `wait.Add(1)` preceding the `go` -/
+theorem joinwg_waitgroup (c : JoinWG.Cfg) (s : JoinWG.State) (hr : (JoinWG.lts c).Reachable s) :
+    s.wg = count (fun i => JoinWG.live (s.st i)) c.n + (if s.pc = .go then 1 else 0) :=
+  (JoinWG.inv_reachable c s hr).1.wgc
+
+theorem joinwg_no_send_on_closed (c : JoinWG.Cfg) (s : JoinWG.State) (hr : (JoinWG.lts c).Reachable s) :
+    s.panicked = false ∧
+    (s.outClosed = true → ∀ i, i < c.n → s.st i = .finished) ∧
+    (∀ i, (JoinWG.lts c).step s (.fSend i) = none) := by
+  have hi := JoinWG.inv_reachable c s hr
+  refine ⟨hi.1.np, fun h => hi.1.allFin (Or.inr (hi.1.outCl.mp h)), ?_⟩
+  intro i
+  cases h : (JoinWG.lts c).step s (.fSend i) with
+  | none => rfl
+  | some s' =>
+    have hi' := JoinWG.inv_fSend c s s' i hi h
+    -- the only `some` branch of fSend is the panic
+    simp only [JoinWG.lts, JoinWG.step, hi.1.np, Bool.false_eq_true, if_false] at h
+    (repeat' split at h) <;> (try cases h)
+    exact absurd hi'.1.np (by simp)
+
+theorem joinwg_close_after_drained (c : JoinWG.Cfg) (s : JoinWG.State) (hr : (JoinWG.lts c).Reachable s) :
+    (s.outClosed = true → s.pc = .fin ∧ s.k = c.n ∧ s.orem = 0 ∧ s.obuf = 0 ∧
+        ∀ i, i < c.n → (s.ch i).closed = true ∧ (s.ch i).buf = [] ∧ s.pend i = [] ∧ s.st i = .finished) ∧
+    (JoinWG.final s → s.outClosed = true) := by
+  have hi := (JoinWG.inv_reachable c s hr).1
+  refine ⟨?_, fun hf => hi.seenC hf⟩
+  intro h
+  have hpc := hi.outCl.mp h
+  have hk := hi.waitK (Or.inr (Or.inr hpc))
+  have ho := hi.outer
+  simp only [hpc] at ho
+  simp at ho
+  refine ⟨hpc, hk, by omega, by omega, ?_⟩
+  intro i hin
+  have hfin := hi.allFin (Or.inr hpc) i hin
+  obtain ⟨hcl, hb⟩ := hi.drained i (Or.inr hfin)
+  exact ⟨hcl, hb, hi.closedPend i hcl, hfin⟩
+
+theorem joinwg_progress (c : JoinWG.Cfg) (s : JoinWG.State) (hr : (JoinWG.lts c).Reachable s)
+    (hnf : ¬ JoinWG.final s) : (JoinWG.lts c).Enabled s :=
+  JoinWG.progress c s (JoinWG.inv_reachable c s hr) (by simpa [JoinWG.final] using hnf)
+
+theorem joinwg_terminates_clean (c : JoinWG.Cfg) (s : JoinWG.State) (hr : (JoinWG.lts c).Reachable s)
+    (hf : JoinWG.final s) :
+    s.pc = .fin ∧ s.wg = 0 ∧ (∀ i, i < c.n → s.st i = .finished) ∧ (∀ i, c.n ≤ i → s.st i = .absent) := by
+  have hi := (JoinWG.inv_reachable c s hr).1
+  have hpc := hi.outCl.mp (hi.seenC hf)
+  have hall := hi.allFin (Or.inr hpc)
+  have hk := hi.waitK (Or.inr (Or.inr hpc))
+  refine ⟨hpc, ?_, hall, fun i h => (hi.abs i).mpr (by omega)⟩
+  have hw := hi.wgc
+  rw [count_all_false _ c.n (fun i hin => by rw [hall i hin]; rfl), hpc] at hw
+  simpa using hw
+
+/-- chan-of-chan form, two inner channels (one unbuffered, one buffered), a complete run in which the
+second channel's item overtakes the first's -/
+example : ∃ s, (JoinWG.lts { n := 2, items := fun i => if i = 0 then [10] else [20], cap := fun i => i,
+                             chanForm := true, ocap := 0 }).run
+      (JoinWG.init { n := 2, items := fun i => if i = 0 then [10] else [20], cap := fun i => i,
+                     chanForm := true, ocap := 0 })
+      [.pSend 1, .pClose 1, .oSend, .spAdd, .spGo, .oSend, .spAdd, .spGo, .oClose, .spNext,
+       .fRecv 1, .cTake 1, .pSend 0, .cTake 0, .fRecv 1, .fDone 1, .pClose 0, .fRecv 0, .fDone 0,
+       .spWait, .spClose, .cSeeClose] = some s ∧
+    s.got = [(1, 20), (0, 10)] ∧ s.seen = true ∧ s.wg = 0 := by
+  refine ⟨_, rfl, ?_, ?_, ?_⟩ <;> decide
+
+/-- slice form, mid-flight: both forwarders spawned, the WaitGroup counter is 2, the spawner waits -/
+example : ∃ s, (JoinWG.lts { n := 2, items := fun _ => [1], cap := fun _ => 0, chanForm := false, ocap := 0 }).run
+      (JoinWG.init { n := 2, items := fun _ => [1], cap := fun _ => 0, chanForm := false, ocap := 0 })
+      [.spAdd, .spGo, .spAdd, .spGo, .pSend 1] = some s ∧
+    s.wg = 2 ∧ s.pc = .wait ∧ s.st 1 = .send 1 := by
+  refine ⟨_, rfl, ?_, ?_, ?_⟩ <;> decide
+
+/-! ## Join with select: `deriveJoin(c0, c1, …)` -/
+
+theorem joinsel_delivery (c : JoinSelect.Cfg) (s : JoinSelect.State) (hr : (JoinSelect.lts c).Reachable s) :
+    ∀ i, i < c.n →
+      c.items i = gotOf s.got i ++ JoinSelect.held s.pc i ++ (s.ch i).buf ++ s.pend i :=
+  (JoinSelect.inv_reachable c s hr).deliv
+
+theorem joinsel_exactly_once (c : JoinSelect.Cfg) (s : JoinSelect.State) (hr : (JoinSelect.lts c).Reachable s) :
+    (∀ i, i < c.n → ∃ rest, c.items i = gotOf s.got i ++ rest) ∧
+    (∀ p, p ∈ s.got → p.1 < c.n) ∧
+    (JoinSelect.final s → ∀ i, i < c.n → gotOf s.got i = c.items i) := by
+  have hi := JoinSelect.inv_reachable c s hr
+  refine ⟨?_, JoinSelect.tags_reachable c s hr, ?_⟩
+  · intro i hin
+    exact ⟨_, by rw [hi.deliv i hin]; simp only [List.append_assoc]; rfl⟩
+  · intro hf i hin
+    have hpc := hi.outCl.mp (hi.seenC hf)
+    have hdead := hi.lateDead (Or.inr hpc) i hin
+    obtain ⟨hcl, hb⟩ := hi.dead i hin hdead
+    have hd := hi.deliv i hin
+    rw [hpc, hb, hi.closedPend i hcl] at hd
+    simpa [JoinSelect.held] using hd.symm
+
+theorem joinsel_no_send_on_closed (c : JoinSelect.Cfg) (s : JoinSelect.State)
+    (hr : (JoinSelect.lts c).Reachable s) :
+    s.panicked = false ∧ (∀ i v, s.pc = .send i v → s.outClosed = false) := by
+  have hi := JoinSelect.inv_reachable c s hr
+  refine ⟨hi.np, ?_⟩
+  intro i v hp
+  cases h : s.outClosed
+  · rfl
+  · have := hi.outCl.mp h; rw [hp] at this; cases this
+
+theorem joinsel_close_after_drained (c : JoinSelect.Cfg) (s : JoinSelect.State)
+    (hr : (JoinSelect.lts c).Reachable s) :
+    (s.outClosed = true → s.pc = .done ∧
+        ∀ i, i < c.n → s.liveIn i = false ∧ (s.ch i).closed = true ∧ (s.ch i).buf = [] ∧ s.pend i = []) ∧
+    (JoinSelect.final s → s.outClosed = true) := by
+  have hi := JoinSelect.inv_reachable c s hr
+  refine ⟨?_, fun hf => hi.seenC hf⟩
+  intro h
+  have hpc := hi.outCl.mp h
+  refine ⟨hpc, ?_⟩
+  intro i hin
+  have hdead := hi.lateDead (Or.inr hpc) i hin
+  obtain ⟨hcl, hb⟩ := hi.dead i hin hdead
+  exact ⟨hdead, hcl, hb, hi.closedPend i hcl⟩
+
+theorem joinsel_progress (c : JoinSelect.Cfg) (s : JoinSelect.State) (hr : (JoinSelect.lts c).Reachable s)
+    (hnf : ¬ JoinSelect.final s) : (JoinSelect.lts c).Enabled s :=
+  JoinSelect.progress c s (JoinSelect.inv_reachable c s hr) (by simpa [JoinSelect.final] using hnf)
+
+theorem joinsel_terminates_clean (c : JoinSelect.Cfg) (s : JoinSelect.State)
+    (hr : (JoinSelect.lts c).Reachable s) (hf : JoinSelect.final s) : s.pc = .done := by
+  have hi := JoinSelect.inv_reachable c s hr
+  exact hi.outCl.mp (hi.seenC hf)
+
+example : ∃ s, (JoinSelect.lts { n := 2, items := fun i => if i = 0 then [1, 2] else [7], cap := fun _ => 1 }).run
+      (JoinSelect.init { n := 2, items := fun i => if i = 0 then [1, 2] else [7], cap := fun _ => 1 })
+      [.pSend 0, .pSend 1, .sRecv 1, .cTake, .pClose 1, .sRecv 0, .cTake, .sRecv 1, .sNil, .pSend 0,
+       .pClose 0, .sRecv 0, .cTake, .sRecv 0, .sNil, .sClose, .cSeeClose] = some s ∧
+    s.got = [(1, 7), (0, 1), (0, 2)] ∧ s.seen = true ∧ s.liveIn 0 = false := by
+  refine ⟨_, rfl, ?_, ?_, ?_⟩ <;> decide
+
+/-! ## Pipeline = (Fmap with a channel-valued function) feeding (Join of a channel of channels) -/
+
+theorem pipeline_delivery (c : Pipeline.Cfg) (s : Pipeline.State) (hr : (Pipeline.lts c).Reachable s) :
+    ∀ i, i < c.n →
+      c.items i = gotOf s.j.got i ++ JoinWG.held (s.j.st i) ++ (s.j.ch i).buf ++ s.j.pend i :=
+  joinwg_delivery (Pipeline.jcfg c) s.j (Pipeline.proj_reachable c s hr)
+
+theorem pipeline_exactly_once (c : Pipeline.Cfg) (s : Pipeline.State) (hr : (Pipeline.lts c).Reachable s) :
+    (∀ i, i < c.n → ∃ rest, c.items i = gotOf s.j.got i ++ rest) ∧
+    (∀ p, p ∈ s.j.got → p.1 < c.n) ∧
+    (Pipeline.final s → ∀ i, i < c.n → gotOf s.j.got i = c.items i) :=
+  joinwg_exactly_once (Pipeline.jcfg c) s.j (Pipeline.proj_reachable c s hr)
+
+theorem pipeline_no_send_on_closed (c : Pipeline.Cfg) (s : Pipeline.State) (hr : (Pipeline.lts c).Reachable s) :
+    s.j.panicked = false ∧
+    (s.j.outClosed = true → ∀ i, i < c.n → s.j.st i = .finished) ∧
+    (s.j.oclosed = true ↔ s.mpc = .done) := by
+  have h := joinwg_no_send_on_closed (Pipeline.jcfg c) s.j (Pipeline.proj_reachable c s hr)
+  exact ⟨h.1, h.2.1, (Pipeline.pinv_reachable c s hr).1.l5⟩
+
+theorem pipeline_close_after_drained (c : Pipeline.Cfg) (s : Pipeline.State) (hr : (Pipeline.lts c).Reachable s) :
+    (s.j.outClosed = true → s.mpc = .done ∧ s.bclosed = true ∧ s.bbuf = 0 ∧ s.brem = 0 ∧ s.created = c.n ∧
+        ∀ i, i < c.n → (s.j.ch i).closed = true ∧ (s.j.ch i).buf = [] ∧ s.j.pend i = [] ∧ s.j.st i = .finished) ∧
+    (Pipeline.final s → s.j.outClosed = true) := by
+  have hj := joinwg_close_after_drained (Pipeline.jcfg c) s.j (Pipeline.proj_reachable c s hr)
+  obtain ⟨hl, hw, _⟩ := Pipeline.pinv_reachable c s hr
+  refine ⟨?_, hj.2⟩
+  intro h
+  obtain ⟨hpc, hk, hrem, hbuf, hall⟩ := hj.1 h
+  -- the spawner is past its loop, so it saw the middle channel closed: the stage-1 forwarder is done
+  have hmid : s.j.oclosed = true :=
+    JoinWG.waitClosed_reachable (Pipeline.jcfg c) s.j (Pipeline.proj_reachable c s hr) (Or.inr (Or.inr hpc))
+  have hm := hl.l5.mp hmid
+  obtain ⟨hbc, hbb⟩ := hl.l4 (Or.inr hm)
+  have hbr := hl.l3 hbc
+  have h1 := hl.l1
+  exact ⟨hm, hbc, hbb, hbr, by omega, hall⟩
+
+theorem pipeline_progress (c : Pipeline.Cfg) (s : Pipeline.State) (hr : (Pipeline.lts c).Reachable s)
+    (hnf : ¬ Pipeline.final s) : (Pipeline.lts c).Enabled s :=
+  Pipeline.progress c s (Pipeline.pinv_reachable c s hr) (by simpa [Pipeline.final] using hnf)
+
+theorem pipeline_terminates_clean (c : Pipeline.Cfg) (s : Pipeline.State) (hr : (Pipeline.lts c).Reachable s)
+    (hf : Pipeline.final s) :
+    s.mpc = .done ∧ s.j.pc = .fin ∧ s.j.wg = 0 ∧ (∀ i, i < c.n → s.j.st i = .finished) := by
+  have hj := joinwg_terminates_clean (Pipeline.jcfg c) s.j (Pipeline.proj_reachable c s hr) hf
+  have hc := pipeline_close_after_drained c s hr
+  exact ⟨(hc.1 (hc.2 hf)).1, hj.1, hj.2.1, hj.2.2.1⟩
+
+example : ∃ s, (Pipeline.lts { n := 2, bcap := 1, items := fun i => [10 * i + 1], cap := fun _ => 0 }).run
+      (Pipeline.init { n := 2, bcap := 1, items := fun i => [10 * i + 1], cap := fun _ => 0 })
+      [.bSend, .mRecv, .bSend, .mSend, .j .spNext, .j .spAdd, .j .spGo, .mRecv, .bClose, .mSend, .mRecv, .mClose,
+       .j .spNext, .j .spAdd, .j .spGo, .j .spNext, .j (.pSend 1), .j (.cTake 1), .j (.pSend 0), .j (.cTake 0),
+       .j (.pClose 0), .j (.pClose 1), .j (.fRecv 0), .j (.fRecv 1), .j (.fDone 1), .j (.fDone 0),
+       .j .spWait, .j .spClose, .j .cSeeClose] = some s ∧
+    s.j.got = [(1, 11), (0, 1)] ∧ s.j.seen = true ∧ s.mpc = .done := by
+  refine ⟨_, rfl, ?_, ?_, ?_⟩ <;> decide
 
 end Goderive.C19
